@@ -34,6 +34,43 @@ def install_extras(extras: List[List[Any]]) -> None:
     for nm, tname, js in extras:
         battery.STRUCT.append((nm, tname, js))
     Z["golden"] = None
+    Z.pop("expr_types", None)
+
+
+def hm_start() -> int:
+    """Index of the first hook-matrix item of the battery (they come last, names start with 'hm:')."""
+    n = len(battery.STRUCT)
+    while n > N_BASE_STRUCT and battery.STRUCT[n - 1][0].startswith("hm:"):
+        n -= 1
+    return n
+
+
+def generate_hookmatrix(limit: int) -> Tuple[List[List[Any]], Dict[str, Any], Optional[str]]:
+    import subprocess
+
+    try:
+        p = subprocess.run([sys.executable, "-m", "sim.hookmatrix", str(core.repo_root()), str(limit)], cwd=str(core.VERIF),
+                           capture_output=True, text=True, timeout=300, env={k: v for k, v in os.environ.items() if k != "PYTHONHASHSEED"} | {"PYTHONHASHSEED": "0"})
+        if p.returncode != 0:
+            return [], {}, "hook matrix generator failed: " + (p.stderr.strip().splitlines()[-1][:200] if p.stderr.strip() else "rc!=0")
+        d = json.loads(p.stdout.strip().splitlines()[-1])
+        return d["items"], {"hooked_types": d["types"], "hook_registrations_seen": d["recorded"]}, None
+    except Exception as e:  # a tree whose get_converter() fails is reported by the runs, not here
+        return [], {}, f"hook matrix generator failed: {core.fmt_exc(e)[:200]}"
+
+
+def resolve_type(tname: str) -> Any:
+    if tname.startswith("expr:"):
+        cache = Z.setdefault("expr_types", {})
+        if tname not in cache:
+            import builtins
+            import typing as _t
+
+            import lsprotocol
+
+            cache[tname] = eval(tname[5:], {"typing": _t, "lsprotocol": lsprotocol, "NoneType": type(None), "builtins": builtins})
+        return cache[tname]
+    return Z["user_types"].get(tname) or getattr(Z["lsp"], tname)
 
 
 def generate_extras(seed: int, count: int) -> Tuple[List[List[Any]], Optional[str]]:
@@ -202,7 +239,7 @@ def do_use(conv: Any, k: int) -> Tuple:
     name, tname, js = battery.STRUCT[k]
     lsp = Z["lsp"]
     try:
-        t = Z["user_types"].get(tname) or getattr(lsp, tname)
+        t = resolve_type(tname)
         inp = json.loads(json.dumps(js))
         obj = conv.structure(inp, t)
         if inp != js:
@@ -362,6 +399,9 @@ def needed_keys(run: Dict[str, Any]) -> List[str]:
         for op in ops:
             if op[0] == "GET" and op[2] == "user":
                 cfgs.add(cfg_of(op[3]))
+            elif op[0] == "GET" and op[2] == "copy":
+                cfgs.add((bool(op[3][1]), bool(op[3][2]), "-"))
+                cfgs.update({(True, False, "oid"), (True, False, "pac")})
             elif op[0] == "CUSTOM":
                 customs.add(f"post:{op[2] if len(op) > 2 else 'position'}")
     return sorted(gkey(c, dv, fek, x) for c in customs for dv, fek, x in cfgs)
@@ -436,17 +476,23 @@ def gen_run(run_seed: int, tier: str) -> Dict[str, Any]:
     base_n = N_BASE_STRUCT - len(battery.BIG)
     small_invalid = [i for i, b in enumerate(battery.STRUCT[:base_n]) if b[0] in ("position-neg", "position-big", "position-missing", "diagnostic-bad-sev", "null-required", "wrong-shape-list")]
 
+    hm0 = hm_start()
+
     def pick_k() -> int:
         x = r_ops.random()
         if x < 0.04 and battery.BIG:
             return r_ops.choice(battery.BIG)
         if x < 0.12 and small_invalid:
             return r_ops.choice(small_invalid)
-        k = r_ops.randrange(nS - len(battery.BIG))
+        if x < 0.40 and hm0 < nS:
+            return r_ops.randrange(hm0, nS)  # hook matrix: one hand-written hook, one input shape
+        k = r_ops.randrange(hm0 - len(battery.BIG))
         return k if k < base_n else k + len(battery.BIG)  # skip over the big block
 
     def pick_k_small() -> int:
-        k = r_ops.randrange(nS - len(battery.BIG))
+        if hm0 < nS and r_ops.random() < 0.3:
+            return r_ops.randrange(hm0, nS)
+        k = r_ops.randrange(hm0 - len(battery.BIG))
         return k if k < base_n else k + len(battery.BIG)
 
     def use_ops(slot: int, count: int) -> List[List[Any]]:
@@ -565,6 +611,15 @@ def gen_run(run_seed: int, tier: str) -> Dict[str, Any]:
                         shared_slots.add(nslots)
                     ops.append(op)
                     nslots += 1
+                elif x < 0.755 and nslots < 5:
+                    # the user hands over a COPY of a converter get_converter returned earlier
+                    # (cattrs Converter.copy(), possibly with another configuration)
+                    src = r_ops.randrange(nslots)
+                    if src not in customised and src not in shared_slots:
+                        ops.append(["GET", nslots, "copy", [src, r_ops.choice([True, True, False]), r_ops.random() < 0.3]])
+                        nslots += 1
+                        ops += use_ops(nslots - 1, 2)
+                        ops += use_ops(src, 1)
                 elif x < 0.82:
                     s = r_ops.randrange(nslots)
                     if s not in customised:
@@ -656,6 +711,7 @@ def execute(run: Dict[str, Any], golden: Dict[str, Any]) -> Dict[str, Any]:
         "burst_100": 0,
         "custom_then_other_used": 0,
         "reget": 0,
+        "copy_of_earlier_converter": 0,
         "forbid_extra_keys_config": 0,
         "extra_battery_used": 0,
         "dropped_and_collected": 0,
@@ -832,6 +888,20 @@ def execute(run: Dict[str, Any], golden: Dict[str, Any]) -> Dict[str, Any]:
                         if c is not base:
                             mode.setdefault(id(c), None)
                         mode.setdefault(id(base), None)
+                    elif how == "copy":
+                        src = slots.get(arg[0])
+                        if src is None or mode.get(id(src)) is not None:
+                            continue  # nothing to copy (minimised script) or a customised source: no-op
+                        sx = cfgs.get(id(src), (True, False, "-"))[2]
+                        cdv, cfek = (bool(arg[1]), bool(arg[2])) if sx == "-" else (True, False)
+                        base = src.copy(detailed_validation=cdv, forbid_extra_keys=cfek)
+                        cfgs[id(base)] = (cdv, cfek, sx)
+                        probes["copy_of_earlier_converter"] += 1
+                        c = conv_mod.get_converter(base)
+                        cfgs.setdefault(id(c), (cdv, cfek, sx))
+                        if c is not base:
+                            mode.setdefault(id(c), None)
+                        mode.setdefault(id(base), None)
                     else:
                         base = shared[arg]
                         active_shared[arg] = active_shared.get(arg, 0) + 1
@@ -1003,7 +1073,8 @@ def execute(run: Dict[str, Any], golden: Dict[str, Any]) -> Dict[str, Any]:
     swept = 0
     if harness is None and sched.abort is None:
         r_sweep = core.rng(run["run_seed"], "sweep")
-        ks = [r_sweep.randrange(len(battery.STRUCT)) for _ in range(5)]
+        hm0_ = hm_start()
+        ks = [r_sweep.randrange(hm0_) for _ in range(4)] + [r_sweep.randrange(hm0_, len(battery.STRUCT)) for _ in range(3 if hm0_ < len(battery.STRUCT) else 0)]
         seen_ids = set()
         for c in registry[:16]:
             if id(c) in seen_ids:
@@ -1336,9 +1407,11 @@ def main(argv: List[str]) -> int:
     rep.log(f"VERIF_SEED={seed} tier={tier} runs<={cfg['runs']} workers={core.n_workers()} repo={core.repo_root()}")
 
     extras, extras_note = generate_extras(core.derive(seed, PROP, "extras"), cfg.get("extras", 60))
-    install_extras(extras)
+    hm_items, hm_info, hm_note = generate_hookmatrix(cfg.get("hm", 0))
+    install_extras(list(extras) + list(hm_items))
     rep.log(f"battery: {N_BASE_STRUCT} fixed structure inputs + {len(extras)} vectors from the tree's testdata plugin"
-            + (f" ({extras_note})" if extras_note else "") + f", {len(battery.BUILD)} constructor recipes")
+            + (f" ({extras_note})" if extras_note else "") + f" + {len(hm_items)} hook-matrix inputs over {hm_info.get('hooked_types', 0)} hooked types"
+            + (f" ({hm_note})" if hm_note else "") + f", {len(battery.BUILD)} constructor recipes")
     # ---- phase 0: reference outcomes of lone converters, one forked child per kind, in parallel -------
     t_start = time.monotonic()
     config_viol: List[Dict[str, str]] = []
@@ -1571,7 +1644,7 @@ def main(argv: List[str]) -> int:
             "simulated": ["choice of which thread runs at each pre-emption point", "threading.Lock/RLock created by lsprotocol (none on the pinned tree)"],
             "stub": [],
         },
-        "battery": {"structure_inputs_fixed": N_BASE_STRUCT, "structure_inputs_from_testdata_plugin": len(battery.STRUCT) - N_BASE_STRUCT,
+        "battery": {"structure_inputs_fixed": N_BASE_STRUCT, "structure_inputs_from_testdata_plugin": hm_start() - N_BASE_STRUCT, "hook_matrix_inputs": len(battery.STRUCT) - hm_start(), "hook_matrix": hm_info, "hook_matrix_note": hm_note,
                     "constructor_recipes": len(battery.BUILD), "note": extras_note},
         "violation_signatures": sorted(first_fail),
     }
